@@ -27,6 +27,7 @@
   (`to_f32`, `as_`) rests on the C14 model of `cast_float_from_uint` at value level.
 -/
 import Bnum.Lemmas.NumConv
+import Bnum.Lemmas.NumConvD
 namespace Bnum.C19
 open Bnum Bnum.NumC
 
@@ -244,5 +245,68 @@ theorem as_float_spec {F : FloatFmt} (hF : F.Valid) {w n : Nat} {x : List Nat} (
     (hw : 1 ≤ w) (hn : 1 ≤ n) (dbg : Bool) (hx : WF w n x) :
     asFloat dbg F w s x = .ok (Spec.intToFloat F.spec (valOf s w x)) :=
   NumC.asFloat_spec hF s hw hn dbg hx
+
+/-! ### digit-level float conversions (Model/NumConvD.lean, what `bnum_driver` runs)
+
+  `from_float!` never had a value-level bnum operation (`fromFloat_digit_eq` is `rfl`: cast from the
+  mantissa word = `as_buint!` loop, `<<` = `unchecked_shl_internal`, `== MIN` / `is_negative` / `-i`
+  = digit scans and `negLoop`).  `to_f32` / `to_f64` / `as_` into floats used the value-level
+  `cast_float_from_uint` of C14; `NumCD.toFloat` / `NumCD.asFloat` run it on the digit list
+  (`bits`, `bit`, `>>`, `trailing_zeros`, `Mantissa::cast_from`, `unsigned_abs`, `is_negative` of
+  Model/BitOps, Shift, Cast, AddSub).  The theorems below say the two levels return the same
+  `Outcome` for every digit width `w = 2^s` (`1 ≤ s < 32`: all real digit types), every `n ≥ 1`,
+  in both build modes, so every value-level theorem above transfers. -/
+
+/-- `from_f32` / `from_f64`: the digit-level function IS the function of the theorems above -/
+theorem fromFloat_digit_eq (dbg : Bool) (F : FloatFmt) (w n : Nat) (s : Bool) (f : Nat) :
+    NumCD.fromFloat dbg F w n s f = fromFloat dbg F w n s f := rfl
+
+/-- refinement: digit-level `to_f32` / `to_f64` = value-level, same `Outcome (Option _)` -/
+theorem toFloat_digit_refines {F : FloatFmt} (hp : 1 ≤ F.p) {s n : Nat} (hs1 : 1 ≤ s) (hs : s < 32)
+    (hn : 1 ≤ n) (dbg : Bool) (sg : Bool) {x : List Nat} (hx : WF (2 ^ s) n x) :
+    NumCD.toFloat dbg F (2 ^ s) sg x = toFloat dbg F (2 ^ s) sg x :=
+  NumCD.toFloat_refines hp hs1 hs hn dbg sg hx
+
+/-- refinement: digit-level `AsPrimitive<f32/f64>::as_` = value-level, same `Outcome` -/
+theorem as_float_digit_refines {F : FloatFmt} (hp : 1 ≤ F.p) {s n : Nat} (hs1 : 1 ≤ s)
+    (hs : s < 32) (hn : 1 ≤ n) (dbg : Bool) (sg : Bool) {x : List Nat} (hx : WF (2 ^ s) n x) :
+    NumCD.asFloat dbg F (2 ^ s) sg x = asFloat dbg F (2 ^ s) sg x :=
+  NumCD.asFloat_refines hp hs1 hs hn dbg sg hx
+
+/-- the digit-level casts themselves refine the value-level C14 casts through `U` -/
+theorem float_from_bnum_digit_refines {F : FloatFmt} (hp : 1 ≤ F.p) {s n : Nat} (hs1 : 1 ≤ s)
+    (hs : s < 32) (hn : 1 ≤ n) (dbg : Bool) {x : List Nat} (hx : WF (2 ^ s) n x) :
+    FltD.floatFromBUint F dbg (2 ^ s) x = Flt.floatFromBUint F (2 ^ s * n) dbg (U (2 ^ s) x) ∧
+    FltD.floatFromBInt F dbg (2 ^ s) x = Flt.floatFromBInt F (2 ^ s * n) dbg (U (2 ^ s) x) :=
+  ⟨NumCD.floatFromBUint_refines hp hs dbg hx, NumCD.floatFromBInt_refines hp hs1 hs hn dbg hx⟩
+
+/-- digit-level `to_f32` / `to_f64`: always `Some` of the nearest float, never panics -/
+theorem toFloat_digit_spec {F : FloatFmt} (hF : F.Valid) {s n : Nat} (hs1 : 1 ≤ s) (hs : s < 32)
+    (hn : 1 ≤ n) (dbg : Bool) (sg : Bool) {x : List Nat} (hx : WF (2 ^ s) n x) :
+    NumCD.toFloat dbg F (2 ^ s) sg x = .ok (some (Spec.intToFloat F.spec (valOf sg (2 ^ s) x))) :=
+  NumCD.toFloat_spec hF hs1 hs hn dbg sg hx
+example : (1 ≤ 3 ∧ 3 < 32 ∧ 1 ≤ 3) ∧ WF (2 ^ 3) 3 [0x01, 0x00, 0x80] ∧
+    NumCD.toFloat true fmtF32 (2 ^ 3) true [0x01, 0x00, 0x80] = .ok (some 0xcafffffe) ∧
+    NumCD.toFloat false fmtF32 (2 ^ 3) false [0xff, 0xff, 0xff, 0x01] = .ok (some 0x4c000000) := by
+  decide
+
+/-- digit-level `as_` into a float: the C14 cast value, never panics -/
+theorem as_float_digit_spec {F : FloatFmt} (hF : F.Valid) {s n : Nat} (hs1 : 1 ≤ s) (hs : s < 32)
+    (hn : 1 ≤ n) (dbg : Bool) (sg : Bool) {x : List Nat} (hx : WF (2 ^ s) n x) :
+    NumCD.asFloat dbg F (2 ^ s) sg x = .ok (Spec.intToFloat F.spec (valOf sg (2 ^ s) x)) :=
+  NumCD.asFloat_spec hF hs1 hs hn dbg sg hx
+
+/-- digit-level `as_` is the digit-level `CastFrom<BUint/BInt> for f32/f64`, and `to_f*` wraps it -/
+theorem as_float_digit_eq_cast (dbg : Bool) (F : FloatFmt) (w : Nat) (x : List Nat) :
+    NumCD.asFloat dbg F w false x = FltD.floatFromBUint F dbg w x ∧
+    NumCD.asFloat dbg F w true x = FltD.floatFromBInt F dbg w x ∧
+    (∀ sg, NumCD.toFloat dbg F w sg x = (NumCD.asFloat dbg F w sg x).map some) :=
+  ⟨rfl, rfl, fun _ => rfl⟩
+
+/-- digit-level `from_f32/f64` against the specification (restated for the driver's function) -/
+theorem fromFloat_digit_matches_spec {F : FloatFmt} (hF : F.Valid) {w n : Nat} (hw : 2 ≤ w)
+    (hn : 1 ≤ n) (dbg : Bool) (s : Bool) {x : Nat} (hx : x < 2 ^ F.bits) :
+    FloatOk w n (NumCD.fromFloat dbg F w n s x) (Spec.NumC.fromFloat F.spec s (M w n) x) :=
+  NumCD.fromFloat_matches hF hw hn dbg s hx
 
 end Bnum.C19
